@@ -282,7 +282,7 @@ def law_tests(rep, tier, seed):
 def run(rep, tier, seed):
     quick = tier == "quick"
     n = 48 if quick else 900
-    jobs = [(seed % 100000 + 5, i, {"checkdraws": True, "plan_filter": exact_raw, "max_steps": 150 if quick else 300})
+    jobs = [(seed % 100000 + 5, i, {"checkdraws": True, "plan_filter": exact_raw, "max_steps": 150 if quick else 300, "extend": 0.3})
             for i in range(n)]
     results = mc.pool_map(jc.model_worker, jobs)
     for r in results:
@@ -295,6 +295,7 @@ def run(rep, tier, seed):
     law_tests(rep, tier, seed)
     rep.assume("numpy's exponential sampler is an exponential sampler (first-reaction theorem then gives the law)")
     rep.assume("exact binomial acceptance regions, Bonferroni over all cells: false alarm < 1e-8 per run")
+    rep.cov["models_extended_after_simulation"] = sum(1 for r in results if r.get("extended"))   # same object: add_event / add_transition / add_birth_death, then simulated again
     rep.rule("mechanism: %d random event models x 3-4 exact runs, every step's draws validated by TLC; law: SIR "
              "final size and linear-chain occupancy against exact laws" % n)
 
